@@ -6,12 +6,6 @@ From Coq Require Import String.
 Open Scope Z_scope.
 Open Scope list_scope.
 
-(* what can be sent: the three formats, uint32 fields, bytes *)
-Definition gfx_ok (g : gfx) : Prop :=
-  0 <= g_type g <= 2 /\ 0 <= g_w g < 4294967296 /\ 0 <= g_h g < 4294967296
-  /\ 0 <= g_x g < 4294967296 /\ 0 <= g_y g < 4294967296 /\ bytes_ok (g_data g) = true
-  /\ zlen (g_data g) < 2 ^ 53.   (* a Go slice; math.Ceil(float64(len)/170) is exact below 2^53 *)
-Definition id_ok (i : Z) : Prop := 0 <= i < 4294967296.
 
 Lemma gfx_ok_wf g : gfx_ok g -> gfx_wf g.
 Proof. unfold gfx_ok, gfx_wf. intuition lia. Qed.
@@ -167,11 +161,6 @@ Section OneId.
 End OneId.
 
 (* ---- several ids, one after the other: clean_batch ---- *)
-Fixpoint clean_deliveries (g : gfx) (T pos : Z) (ids : list Z) : list (Z * (list Z * gfx)) :=
-  match ids with
-  | [] => []
-  | i :: r => (pos + T - 1, ([i], gfx_norm g)) :: clean_deliveries g T (pos + T) r
-  end.
 
 Lemma gfx_lines_len g id : gfx_ok g -> id_ok id -> 1 <= zlen (g_data g) ->
   zlen (gfx_lines g id) = total_lines (zlen (g_data g)).
